@@ -7,6 +7,7 @@ import (
 	"sync"
 
 	"deps.dev/util/resolve"
+	"deps.dev/util/resolve/dep"
 	"github.com/google/osv-scalibr/guidedremediation/internal/manifest"
 	"github.com/google/osv-scalibr/guidedremediation/internal/remediation"
 	"github.com/google/osv-scalibr/guidedremediation/internal/resolution"
@@ -18,7 +19,9 @@ import (
 // C16: drive the real common.ComputePatches with a caller-supplied (table-driven, gated) patch function.
 
 // VerifC16Req is one direct requirement of the fake manifest.
-type VerifC16Req struct{ Name, Version string }
+// KnownAs, when set, makes the requirement an npm alias ("y": "npm:x@1.0.0"): another requirement KEY for a package of the
+// same name, which is how two requirements of one manifest can carry the same Name.
+type VerifC16Req struct{ Name, Version, KnownAs string }
 
 // VerifC16Outcome is what the strategy returns for one vuln-id list.
 type VerifC16Outcome struct {
@@ -45,8 +48,12 @@ func (m *c16Manifest) Requirements() []resolve.RequirementVersion {
 	}
 	var out []resolve.RequirementVersion
 	for _, r := range m.reqs {
-		out = append(out, resolve.RequirementVersion{VersionKey: resolve.VersionKey{
-			PackageKey: resolve.PackageKey{System: resolve.NPM, Name: r.Name}, Version: r.Version, VersionType: resolve.Requirement}})
+		rv := resolve.RequirementVersion{VersionKey: resolve.VersionKey{
+			PackageKey: resolve.PackageKey{System: resolve.NPM, Name: r.Name}, Version: r.Version, VersionType: resolve.Requirement}}
+		if r.KnownAs != "" {
+			rv.Type.AddAttr(dep.KnownAs, r.KnownAs)
+		}
+		out = append(out, rv)
 	}
 	return out
 }
